@@ -145,6 +145,15 @@ func readBackType(t *rapid.T) gen.TypeSpec {
 		}
 	}
 
+	// Some relationships name an inverse, others do not.
+	for i := range ts.Rels {
+		if rapid.Bool().Draw(t, "inverse") {
+			ts.Rels[i].ToName = rapid.SampledFrom([]string{"inv", "back", "o", "m"}).Draw(t, "inverse-name")
+		}
+	}
+
+	ts.Derived = rapid.Bool().Draw(t, "derived")
+
 	// Names are case-sensitive: an attribute whose name only differs from
 	// another one's by letter case is a field of its own (of any kind).
 	for _, a := range append([]jsonapi.Attr{}, ts.Attrs...) {
@@ -162,6 +171,19 @@ func TestC17ReadBack(t *testing.T) {
 	rapid.Check(t, prop(r, func(t *rapid.T) {
 		ts := readBackType(t)
 		soft, wrapped := twins(&ts, map[string]any{})
+
+		// The soft resource may also come from the Type value's own New (the
+		// type possibly derived from another one that was already in use).
+		if rapid.Bool().Draw(t, "viaTypeNew") {
+			st := ts
+			st.Struct = false
+			typ := gen.SoftTypeOf(&st)
+
+			if p := oracle.Try(func() { soft = typ.New() }); p != nil {
+				t.Fatalf("C17 violated: Type.New %s\ntype: %s", p, ts)
+			}
+		}
+
 		model := map[string]any{"id": ""}
 		history := []string{}
 		kinds := map[string]bool{}
